@@ -165,6 +165,58 @@ func c08One(c c08Case) string {
 		if err != nil || !bytes.Equal(b, b2) {
 			return fmt.Sprintf("re-serialisation % x differs from % x (%v)", b2, b, err)
 		}
+	case "v2hist":
+		// p: kind of packet the wrapper's hash met before, integ alg, key. A
+		// session signs what it sends and verifies what it receives with one
+		// hash object: whatever was received (and rejected) before, the next
+		// serialisation must still be the encoding of its value.
+		h := integHash(p[1], p[2])
+		if h == nil {
+			return ""
+		}
+		good, err := serialise(&ipmi.V2Session{PayloadDescriptor: ipmi.PayloadDescriptorIPMI, Authenticated: true, ID: 0x0A0B0C0D, Sequence: 7, IntegrityAlgorithm: integHash(p[1], p[2])}, gopacket.Payload(pattern(c.N+5, 0x33, 1)))
+		if err != nil {
+			return "serialise: " + err.Error()
+		}
+		sigLen := h.Size()
+		early := append([]byte{}, good...)
+		switch p[0] {
+		case 0:
+			early = early[:len(early)-1]
+		case 1:
+			early = append(early, 0)
+		case 2:
+			early = early[:len(early)-sigLen]
+		case 3:
+			early[len(early)-1] ^= 1
+		case 4:
+			early = early[:14]
+		case 5: // accepted as it is
+		case 6:
+			early[5] &^= 0x40
+		case 7:
+			early = early[:len(early)-sigLen/2]
+		}
+		rcv := &ipmi.V2Session{IntegrityAlgorithm: h}
+		e := append([]byte{}, early...)
+		rcv.DecodeFromBytes(e, gopacket.NilDecodeFeedback) // accepted or rejected: either way
+		x := &ipmi.V2Session{PayloadDescriptor: ipmi.PayloadDescriptorIPMI, Encrypted: true, Authenticated: true, ID: 0x01020304, Sequence: 9, IntegrityAlgorithm: h}
+		b, err := serialise(x, gopacket.Payload(inner))
+		if err != nil {
+			return "serialise: " + err.Error()
+		}
+		y := &ipmi.V2Session{IntegrityAlgorithm: integHash(p[1], p[2])}
+		if err := y.DecodeFromBytes(append([]byte{}, b...), gopacket.NilDecodeFeedback); err != nil {
+			return fmt.Sprintf("after the wrapper's hash had met the packet % x, the serialisation % x of a value does not decode (fresh hash, same key): %v", early, b, err)
+		}
+		if y.ID != x.ID || y.Sequence != x.Sequence || !y.Authenticated || !y.Encrypted || !bytes.Equal(y.LayerPayload(), inner) {
+			return fmt.Sprintf("decoded %+v payload % x differs from serialised", y.PayloadDescriptor, y.LayerPayload())
+		}
+		// and the other way round: after that serialisation, decode again with the used hash
+		z := &ipmi.V2Session{IntegrityAlgorithm: h}
+		if err := z.DecodeFromBytes(append([]byte{}, b...), gopacket.NilDecodeFeedback); err != nil {
+			return fmt.Sprintf("the used hash rejects the bytes it has just signed: %v", err)
+		}
 	case "msg":
 		// p: netfn, lun1, lun2, seq, cmd, cc, body, enterprise sel, addr sel
 		nf := ipmi.NetworkFunction(p[0])
@@ -293,6 +345,16 @@ func runC08(r *rep.R) {
 			}
 		}
 		lens(func(n int) { do(c08Case{Layer: "v1", P: []int{at, 1, 8, 0x5A}, N: n}) })
+	}
+	// v2.0 wrapper whose hash has verified (and rejected) packets before
+	for kind := 0; kind < 8; kind++ {
+		for alg := 1; alg <= 3; alg++ {
+			for key := 0; key < 3; key++ {
+				for _, n := range []int{0, 1, 2, 3, 4, 15, 16, 17, 63, 64, 65, 200} {
+					do(c08Case{Layer: "v2hist", P: []int{kind, alg, key}, N: n})
+				}
+			}
+		}
 	}
 	// v2.0 wrapper
 	for pt := 0; pt < 12; pt++ {
